@@ -220,7 +220,6 @@ structure Coupled (s : State) : Prop where
   pend : pendTA s.alloc s.peer = unanswered s.waiters
   nodupW : (s.waiters.map (·.ticket)).Nodup
   fresh : ∀ w ∈ s.waiters, w.ticket < s.nextTicket
-  nofail : ∀ w ∈ s.waiters, w.answer ≠ some false
   wsize : ∀ w ∈ s.waiters, w.tx.who = .response ∧ w.size = itemsSize w.tx.items
 
 /-- an allocator call that does not fail any of this peer's tickets and (apart from its grants)
@@ -235,14 +234,13 @@ theorem allocStep_coupled {pick : Pick} (hp : Admissible pick) {s : State} (hc :
   obtain ⟨a1, a2, a3⟩ := answer_grants s.peer (Alloc.step pick s.alloc op).2 s.waiters
     (pendTA (Alloc.step pick s.alloc op).1 s.peer) hc.nodupW hview.2 (by rw [← hc.pend, hview.1])
   have hcore := answerWaiters_core s.peer (Alloc.step pick s.alloc op).2 s.waiters
-  refine ⟨⟨hv.inv, a1.symm, ?_, ?_, ?_, ?_⟩, ?_⟩
+  refine ⟨⟨hv.inv, a1.symm, ?_, ?_, ?_⟩, ?_⟩
   · show ((answerWaiters s.peer s.waiters _).map (·.ticket)).Nodup
     rw [a3]; exact hc.nodupW
   · intro w hw
     obtain ⟨w0, h0, e1, _, _⟩ := core_mem hcore w hw
     show w.ticket < s.nextTicket
     rw [e1]; exact hc.fresh w0 h0
-  · exact answerWaiters_nofail _ _ _ hview.2 hc.nofail
   · intro w hw
     obtain ⟨w0, h0, _, e2, e3⟩ := core_mem hcore w hw
     rw [e2, e3]; exact hc.wsize w0 h0
@@ -263,6 +261,111 @@ theorem release_coupled {pick : Pick} (hp : Admissible pick) {s : State} (hc : C
   simp only [if_true] at h3
   rw [h3, Nat.min_eq_left hn] at h2
   exact h2
+
+/-! ### the queue's own `ReleasePeerMemory`: every waiting caller is refused -/
+
+theorem mem_unanswered_mark {t : Nat} {v : Bool} {ws : List Waiter} {x : Nat × Nat}
+    (h : x ∈ unanswered (mark t v ws)) : x ∈ unanswered ws ∧ x.1 ≠ t := by
+  unfold unanswered mark at h
+  obtain ⟨w', hw', rfl⟩ := List.mem_map.mp h
+  obtain ⟨hm, ha⟩ := List.mem_filter.mp hw'
+  obtain ⟨w, hw, rfl⟩ := List.mem_map.mp hm
+  by_cases ht : (w.ticket == t) = true
+  · rw [if_pos ht] at ha; simp at ha
+  · rw [if_neg ht] at ha ⊢
+    refine ⟨List.mem_map.mpr ⟨w, List.mem_filter.mpr ⟨hw, ha⟩, rfl⟩, ?_⟩
+    intro he; apply ht; simpa using he
+
+theorem grantedBytes_cons (x : Waiter) (l : List Waiter) :
+    grantedBytes (x :: l) = (if x.answer == some true then x.size else 0) + grantedBytes l := by
+  unfold grantedBytes; rw [List.filter_cons]; split <;> simp [sumNat_cons]
+
+theorem grantedBytes_mark_false (t : Nat) : ∀ (ws : List Waiter), grantedBytes (mark t false ws) ≤ grantedBytes ws
+  | [] => Nat.le_refl _
+  | w :: r => by
+    have ih := grantedBytes_mark_false t r
+    have hm : mark t false (w :: r) = (if w.ticket == t then { w with answer := some false } else w) :: mark t false r := rfl
+    rw [hm, grantedBytes_cons, grantedBytes_cons]
+    by_cases ht : (w.ticket == t) = true
+    · rw [if_pos ht]
+      have : ((some false : Option Bool) == some true) = false := rfl
+      simp only [this]
+      simp only [Bool.false_eq_true, if_false]; omega
+    · rw [if_neg ht]; omega
+
+/-- events without grants for `p` that refuse every unanswered ticket -/
+theorem answer_fails (p : Nat) : ∀ (evs : List Alloc.Event) (ws : List Waiter),
+    grantsOf p evs = [] → (∀ x ∈ unanswered ws, x.1 ∈ failsOf p evs) →
+    unanswered (answerWaiters p ws evs) = [] ∧ grantedBytes (answerWaiters p ws evs) ≤ grantedBytes ws
+  | [], ws, _, h => by
+    refine ⟨?_, Nat.le_refl _⟩
+    rw [answerWaiters_nil]
+    cases hu : unanswered ws with
+    | nil => rfl
+    | cons x r => have := h x (by rw [hu]; simp); simp [failsOf] at this
+  | e :: es, ws, hg, h => by
+    rw [answerWaiters_cons]
+    cases e with
+    | granted q t a =>
+      by_cases hq : q = p
+      · subst hq; simp [grantsOf] at hg
+      · have hb : (q == p) = false := by simp [hq]
+        simp only [grantsOf, hq, if_false] at hg
+        simp only [hb]
+        exact answer_fails p es ws hg (fun x hx => by have := h x hx; simpa [failsOf] using this)
+    | failed q t =>
+      simp only [grantsOf] at hg
+      by_cases hq : q = p
+      · subst hq
+        simp only [beq_self_eq_true, if_true]
+        obtain ⟨i1, i2⟩ := answer_fails q es (mark t false ws) hg (by
+          intro x hx
+          obtain ⟨h1, h2⟩ := mem_unanswered_mark hx
+          have := h x h1
+          simp only [failsOf, if_true, List.mem_cons] at this
+          rcases this with e | e
+          · exact absurd e h2
+          · exact e)
+        exact ⟨i1, Nat.le_trans i2 (grantedBytes_mark_false t ws)⟩
+      · have hb : (q == p) = false := by simp [hq]
+        simp only [hb]
+        exact answer_fails p es ws hg (fun x hx => by have := h x hx; simpa [failsOf, hq] using this)
+    | released q a =>
+      simp only [grantsOf] at hg
+      exact answer_fails p es ws hg (fun x hx => by have := h x hx; simpa [failsOf] using this)
+    | errNoPeer =>
+      simp only [grantsOf] at hg
+      exact answer_fails p es ws hg (fun x hx => by have := h x hx; simpa [failsOf] using this)
+
+/-- the deferred `ReleasePeerMemory(p)` of the queue goroutine, when no granted reservation is on its
+    way to `buildMessage` -/
+theorem releasePeer_coupled {pick : Pick} (hp : Admissible pick) {s : State} (hc : Coupled s)
+    (hg : grantedBytes s.waiters = 0) :
+    Coupled (s.allocStep pick (.releasePeer s.peer)).1 ∧
+    tot (s.allocStep pick (.releasePeer s.peer)).1.alloc s.peer = 0 ∧
+    grantedBytes (s.allocStep pick (.releasePeer s.peer)).1.waiters = 0 := by
+  have hv := view hp hc.ainv (.releasePeer s.peer) s.peer
+  obtain ⟨r1, r2, r3, r4⟩ := releasePeer_own hp hc.ainv s.peer
+  obtain ⟨a1, a2⟩ := answer_fails s.peer (Alloc.step pick s.alloc (.releasePeer s.peer)).2 s.waiters r1 (by
+    intro x hx
+    rw [r3, hc.pend]
+    exact List.mem_map.mpr ⟨x, hx, rfl⟩)
+  have hcore := answerWaiters_core s.peer (Alloc.step pick s.alloc (.releasePeer s.peer)).2 s.waiters
+  refine ⟨⟨hv.inv, ?_, ?_, ?_, ?_⟩, r4, ?_⟩
+  · show pendTA (Alloc.step pick s.alloc (.releasePeer s.peer)).1 s.peer = unanswered (answerWaiters s.peer s.waiters _)
+    rw [r2, a1]
+  · show ((answerWaiters s.peer s.waiters _).map (·.ticket)).Nodup
+    rw [core_tickets hcore]; exact hc.nodupW
+  · intro w hw
+    obtain ⟨w0, h0, e1, _, _⟩ := core_mem hcore w hw
+    show w.ticket < s.nextTicket
+    rw [e1]; exact hc.fresh w0 h0
+  · intro w hw
+    obtain ⟨w0, h0, _, e2, e3⟩ := core_mem hcore w hw
+    rw [e2, e3]; exact hc.wsize w0 h0
+  · show grantedBytes (answerWaiters s.peer s.waiters _) = 0
+    omega
+
 
 /-- the frame of `release`: only the allocator, the answers and the log change -/
 theorem release_frame (pick : Pick) (s : State) (n : Nat) :
@@ -406,7 +509,7 @@ theorem pubShutdown_frame (s : State) : Frame s s.pubShutdown := by
   · exact ⟨rfl, rfl, rfl, rfl, rfl, rfl, rfl, rfl, rfl, rfl, rfl, rfl⟩
 
 theorem Coupled.frame {s s' : State} (h : Coupled s) (f : Frame s s') : Coupled s' := by
-  refine ⟨f.alloc ▸ h.ainv, ?_, f.waiters ▸ h.nodupW, ?_, f.waiters ▸ h.nofail, f.waiters ▸ h.wsize⟩
+  refine ⟨f.alloc ▸ h.ainv, ?_, f.waiters ▸ h.nodupW, ?_, f.waiters ▸ h.wsize⟩
   · rw [f.alloc, f.peer, f.waiters]; exact h.pend
   · rw [f.waiters, f.nextTicket]; exact h.fresh
 
@@ -477,7 +580,7 @@ theorem publishError_led {s : State} {m : InFlight} (h : Led s (hb s.builders + 
   generalize hs1 : ({ s with closedStreams := m.streams.foldl (fun acc r => if acc.contains r then acc else acc ++ [r]) s.closedStreams } : State) = s1
   have f1 : Frame s s1 ∨ True := Or.inr trivial
   have l1 : Led s1 (hb s.builders + m.size) := by
-    subst hs1; exact ⟨⟨h.1.ainv, h.1.pend, h.1.nodupW, h.1.fresh, h.1.nofail, h.1.wsize⟩, h.2⟩
+    subst hs1; exact ⟨⟨h.1.ainv, h.1.pend, h.1.nodupW, h.1.fresh, h.1.wsize⟩, h.2⟩
   have q1 : QFrame s s1 ∨ True := Or.inr trivial
   have e1 : s1.builders = s.builders ∧ s1.pc = s.pc ∧ s1.peer = s.peer ∧ s1.maxRetries = s.maxRetries ∧
       s1.done = s.done ∧ s1.sender = s.sender ∧ s1.token = s.token ∧ s1.nextTopic = s.nextTopic := by
@@ -493,7 +596,7 @@ theorem publishError_led {s : State} {m : InFlight} (h : Led s (hb s.builders + 
   generalize hs3 : ({ s2 with builders := bs } : State) = s3
   have l3 : Led s3 (hb bs + freed + m.size) := by
     subst hs3
-    refine ⟨⟨l2.1.ainv, l2.1.pend, l2.1.nodupW, l2.1.fresh, l2.1.nofail, l2.1.wsize⟩, ?_⟩
+    refine ⟨⟨l2.1.ainv, l2.1.pend, l2.1.nodupW, l2.1.fresh, l2.1.wsize⟩, ?_⟩
     have := l2.2
     show tot s2.alloc s2.peer = _
     rw [this, sc2]
